@@ -394,7 +394,14 @@ class Reshape(ArrayExpr):
 
         # Apply slice to input, then reshape
         sliced_input = new_collection(self.array)[tuple(input_index)]
-        result = Reshape(sliced_input.expr, new_out_shape)
+        # Through ``reshape`` rather than a bare ``Reshape`` node: the slice may
+        # leave a single block, an identity, or unit axes only, which
+        # ``reshape`` routes around the chunk plan (``reshape_rechunk`` cannot
+        # walk e.g. (1, 1, 1, 1) -> (1,)).
+        try:
+            result = reshape(sliced_input, new_out_shape).expr
+        except NotImplementedError:
+            return None
 
         # Re-apply None insertions if any using expand_dims
         if none_positions:
